@@ -31,7 +31,7 @@ def base_env():
     env = dict(os.environ)
     env["IPA_VERIF_DIR"] = VERIF
     env["CARGO_NET_OFFLINE"] = "true"
-    env.setdefault("IPA_VERIF_REPLAY", os.path.join(VERIF, "replays", "empty.rs"))
+    env.setdefault("IPA_VERIF_REPLAY_DIR", os.path.join(VERIF, "replays", "slots"))
     env.pop("RUSTFLAGS", None)
     env.pop("CARGO_TARGET_DIR", None)
     return env
@@ -269,29 +269,62 @@ def sanitize(name):
     return re.sub(r"[^A-Za-z0-9_]+", "_", name)
 
 
+HOOK_OF_MODULE = {
+    "ff::accumulator": "accumulator", "protocol::context::batcher": "batcher", "helpers::buffers": "buffers",
+    "helpers::buffers::circular": "circular", "protocol::dp": "dp", "protocol::context::dzkp_field": "dzkp_field",
+    "protocol::context::dzkp_validator": "dzkp_validator", "protocol::context::validator": "mac_validator",
+    "helpers::buffers::ordering_sender": "ordering_sender", "protocol::prss": "prss", "query::state": "query_state",
+    "helpers::gateway::send": "send", "helpers::transport::stream::input": "streams",
+    "secret_sharing::vector::transpose": "transpose", "helpers::buffers::unordered_receiver": "unordered_receiver",
+    "": "root",
+}
+
+
+def hook_and_relpath(harness):
+    """'a::b::verif_kani::x::y' -> (hook file name, 'x::y')"""
+    mod, _, rel = harness.partition("verif_kani::")
+    mod = mod.rstrip(":")
+    return HOOK_OF_MODULE.get(mod), rel
+
+
 def extract_playback_tests(lines, harness):
-    """Turn Kani's printed unit test into one that names the harness by full path."""
+    """Turn Kani's printed unit test into one that names the harness relative to the hook's replay slot."""
     text = "\n".join(lines)
     blocks = re.findall(r"```\s*\n(.*?)```", text, re.S)
     # keep the tests generated for failed checks, not those for satisfied cover! statements
     keep = [b for b in blocks if "Check for `cover`" not in b]
     body = "\n".join(keep if keep else blocks)
     short = harness.split("::")[-1]
+    _hook, rel = hook_and_relpath(harness)
     body = re.sub(r"kani::concrete_playback_run\(concrete_vals,\s*%s\)" % re.escape(short),
-                  "kani::concrete_playback_run(concrete_vals, crate::%s)" % harness, body)
+                  "kani::concrete_playback_run(concrete_vals, super::%s)" % rel, body)
     return body
 
 
 def native_replay(replay_path, timeout=3600):
-    """Run the concrete-playback test natively (dev profile, which is what Kani models)."""
+    """Run the concrete-playback test natively (dev profile, which is what Kani models).
+    The replay file names its hook in a '// hook: <name>' line; it is placed in that hook's slot."""
     env = base_env()
-    env["IPA_VERIF_REPLAY"] = os.path.abspath(replay_path)
+    hook = "root"
+    for line in open(replay_path):
+        m = re.match(r"// hook: (\S+)", line)
+        if m:
+            hook = m.group(1)
+            break
+    slots = os.path.join(WORK, "replay_slots_%d" % os.getpid())
+    shutil.rmtree(slots, ignore_errors=True)
+    shutil.copytree(os.path.join(VERIF, "replays", "slots"), slots)
+    shutil.copyfile(replay_path, os.path.join(slots, hook + ".rs"))
+    env["IPA_VERIF_REPLAY_DIR"] = slots
     env["CARGO_TARGET_DIR"] = PLAYBACK_TARGET
     cmd = ["cargo", "kani", "playback", "-Z", "concrete-playback", "-Z", "stubbing", "-p", "ipa-core", "--lib",
-           "--features", FEATURES, "--", "verif_kani::replay", "--test-threads", "1"]
-    p = subprocess.run(cmd, cwd=REPO, env=env, stdout=subprocess.PIPE, stderr=subprocess.STDOUT, text=True,
-                       errors="replace", timeout=timeout)
-    out = p.stdout
+           "--features", FEATURES, "--", "verif_kani::replay_here", "--test-threads", "1"]
+    try:
+        p = subprocess.run(cmd, cwd=REPO, env=env, stdout=subprocess.PIPE, stderr=subprocess.STDOUT, text=True,
+                           errors="replace", timeout=timeout)
+        out = p.stdout
+    finally:
+        shutil.rmtree(slots, ignore_errors=True)
     ran = re.search(r"test result: (ok|FAILED)\. (\d+) passed; (\d+) failed", out)
     if not ran:
         return "error", out
@@ -328,6 +361,7 @@ def get_counterexample(pid, harness, mem_gb, harness_timeout_s):
     path = os.path.join(d, sanitize(harness.split("verif_kani::")[-1]) + ".rs")
     with open(path, "w") as f:
         f.write("// concrete counterexample produced by CBMC for harness %s\n" % harness)
+        f.write("// hook: %s\n" % (hook_and_relpath(harness)[0] or "root"))
         f.write("// replay: ./check %s --replay %s\n" % (pid, path))
         f.write(body)
     return path
